@@ -278,6 +278,9 @@ Definition step_check (en : env) (tbl : list evidence) (abs : list (list (Z * N 
   let monitors :=
     [ (* size = number of pending items *)
       viol (obs_size o =? Z.of_nat (length pend)) 8;
+      (* evidence committed by an Update (this one included) is not pending after any operation,
+         in particular not after the next Update has processed the votes consensus reported *)
+      viol (forallb (fun i => negb (kmem (e_key (evof tbl i)) committed')) pend) 19;
       (* pending evidence leaves only by being committed or by expiring under both limits *)
       viol (forallb (fun i => let e := evof tbl i in
                        match x with
